@@ -408,6 +408,21 @@ def main():
         print(l)
     print(f"{pid} {tier}: obligations {proof['discharged']}/{proof['obligations']}, cases {corr['model_cases']} (agree {corr['agree']}, drift {len(corr['drift'])}), "
           f"oracle-only {rep.get('stats', {}).get('oracle_only_cases', 0)}, violations {len(violations)}, known {len(corr['known'])}, {wall:.1f}s")
+    if exit_code != 0:
+        # keep what a failing run said (the work directory is reused by the next run of the same check)
+        try:
+            import shutil
+            keep = os.path.join(WORK, "failed", f"{pid}-{tier}-{int(time.time())}")
+            os.makedirs(keep, exist_ok=True)
+            log.flush()
+            for name in ("log.txt", "report.json"):
+                src = os.path.join(workdir, name)
+                if os.path.exists(src):
+                    shutil.copy(src, keep)
+            with open(os.path.join(keep, "summary.txt"), "w") as f:
+                f.write("\n".join(lines) + "\n")
+        except Exception:
+            pass
     sys.exit(exit_code)
 
 
